@@ -12,6 +12,7 @@ decidable `Excluded…` predicate / counterexample of lean/SparseV/Props/C04.lea
   F-matmul-1d-left          (wrapper logic, no Lean model) matmul of a 1-d left operand with a right operand of rank >= 3
   F-matmul-empty-batch      (wrapper logic, no Lean model) matmul batch recursion with a batch axis of extent 0
   F-tensordot-empty-return-type  (wrapper logic) tensordot's zero-size shortcut ignores return_type
+  F-dot-1d-length-mismatch  (wrapper logic) dot of two 1-d operands of lengths 1 and n != 1 broadcasts instead of raising
 
 `ACTIVE` is filled by harness/c04.py after replaying each finding's witness under the watchdog: a
 finding whose witness no longer fails (the defect was repaired) classifies nothing.
@@ -78,18 +79,16 @@ def route(case):
     if na == 1 and nb == 1:
         return None
     if op in ("matmul", "@") and na > 2 and nb > 2:
-        # batch recursion: 2-d slices; needs a non-empty batch (the squeeze shortcuts reach `dot` as well)
         if sa[-1] != sb[-2]:
             return None
-        batch = max(prod(sa[:-2]), prod(sb[:-2]))
+        k = sa[-1]
+        if na <= nb and prod(sa[:-1]) == 1:   # dot(a.reshape(-1), b)
+            return None if k == 0 else (1, k, prod(sb) // k)
+        if nb <= na and prod(sb[:-2]) == 1:   # dot(a, b.reshape(b.shape[-2:]))
+            return None if k == 0 else (prod(sa) // k, k, sb[-1])
+        # batch recursion over 2-d slices; needs a non-empty batch
         if prod(sa[:-2]) == 0 or prod(sb[:-2]) == 0:
             return None
-        k = sa[-1]
-        if prod(sa[:-2]) == 1 and na <= nb:   # dot(a.reshape(-1), b)
-            return None if k == 0 else (1, k, prod(sb) // k)
-        if prod(sb[:-2]) == 1 and nb <= na:   # dot(a, b.reshape(b.shape[-2:]))
-            return None if k == 0 else (prod(sa) // k, k, sb[-1])
-        del batch
         return None if k == 0 else (sa[-2], k, sb[-1])
     # dot(a, b): contract a's last axis with b's second-to-last (or only) axis
     k = sa[-1]
@@ -175,8 +174,12 @@ def classify(name, case, msg):
             msg.startswith("shape ") or msg.startswith("values differ")):
         return "F-matmul-1d-left"
     if ACTIVE.get("F-matmul-empty-batch") and matmul_recursion_with_empty_batch(case) and (
-            msg.startswith("raised IndexError: Index is not smaller than dimension") or msg.startswith("raised ValueError: At least one array required")):
+            msg.startswith("raised IndexError: ") or msg.startswith("raised ValueError: At least one array required")):
         return "F-matmul-empty-batch"
+    if ACTIVE.get("F-dot-1d-length-mismatch") and case.get("op") in ("dot", "matmul", "@", "method_dot") and (
+            len(case["a"]["shape"]) == 1 and len(case["b"]["shape"]) == 1 and case["a"]["shape"] != case["b"]["shape"]
+            and 1 in (case["a"]["shape"][0], case["b"]["shape"][0]) and msg.startswith("numpy raises ValueError but the call returned")):
+        return "F-dot-1d-length-mismatch"
     if ACTIVE.get("F-tensordot-empty-return-type") and tensordot_zero_size_shortcut(case) and msg.startswith("return_type "):
         return "F-tensordot-empty-return-type"
     if msg.startswith("hang") and ACTIVE.get("F-coo-nd-zero-cols-hang") and in_hang_region(case):
